@@ -632,14 +632,14 @@ fn c05_written_index_n7_b2() {
 
 // @harness c14_write_data_fault
 // @props C14
-// @tier off
+// @tier quick
 // @kind core
 // @timeout 2400
 // @mem 24
 // @functions bbiwrite::write_data (the task that writes encoded sections to the destination / staging buffer) over BufWriter<FaultySink>, as future_channel sets it up
 // @bounds one finished section of 10 bytes in the channel, then the channel is closed; the k-th destination operation fails (k symbolic, 1..=4); BufWriter capacity 64 (>= the section, like the production 8 KiB buffer)
-// @stubs the task hand-off `section_raw.await.unwrap()` is replaced in the scratch copy by `join_now(section_raw)` (result of an already finished task; one source substitution); crossbeam_channel::Sender::send -> counted
-// @sub src/bbi/bbiwrite.rs ::: section_raw.await.unwrap()?; ::: crate::verif_support::env::join_now(section_raw)?;
+// @stubs the task hand-off `section_raw.await.unwrap()` is replaced in the scratch copy by `join_now(section_raw)` (result of an already finished task) and `frx.next().await` by `recv_now(&mut frx)` (a two-slot queue, closed when empty; two source substitutions; the native replay runs the unsubstituted function on the real channel and runtime); crossbeam_channel::Sender::send -> counted
+// @sub src/bbi/bbiwrite.rs ::: section_raw.await.unwrap()?; ::: crate::verif_support::env::join_now(section_raw)?; ||| src/bbi/bbiwrite.rs ::: while let Some(section_raw) = frx.next().await { ::: while let Some(section_raw) = crate::verif_support::env::recv_now(&mut frx) {
 // @assumes a failed destination operation returns io::ErrorKind::Other and has no effect
 // @cut several sections; the consumer side (write_chroms_*) and the real tokio scheduling
 // @witness cover: a failure was delivered; no failure within the run
@@ -657,11 +657,11 @@ fn c14_write_data_fault() {
     let mut data = Vec::with_capacity(10);
     data.extend_from_slice(&[1u8, 2, 3, 4, 5, 6, 7, 8, 9, 10]);
     let sd = SectionData { chrom: 0, start: 0, end: 5, data };
-    let sent = tx.try_send(env.ready_task(Ok((sd, 0))));
-    let sok = sent.is_ok();
-    core::mem::forget(sent);
-    assert!(sok, "[setup] queueing the section failed");
+    queue_for_recv(&mut tx, env.ready_task(Ok((sd, 0))));
+    #[cfg(verif_replay)]
     drop(tx);
+    #[cfg(not(verif_replay))]
+    core::mem::forget(tx);
     let (stx, srx) = crossbeam_channel::unbounded::<Section>();
     core::mem::forget(srx);
     // keep a second sender alive (and never drop it): write_data's own sender is then not the last one and
@@ -669,7 +669,7 @@ fn c14_write_data_fault() {
     let keep = stx.clone();
     core::mem::forget(keep);
     let file = BufWriter::with_capacity(64, CountSink(&mut st as *mut Stats));
-    let r = poll_once(write_data(file, stx, rx));
+    let r = drive(write_data(file, stx, rx));
     let (done, reported_ok) = match &r { Some(Ok(_)) => (true, true), Some(Err(_)) => (true, false), None => (false, false) };
     core::mem::forget(r);
     assert!(done, "[total] write_data suspended although its channel is closed");
